@@ -49,10 +49,25 @@ def run(ctx, chk):
         cats[cat] = cats.get(cat, 0) + 1
         ok = cat != "FINDING"
         tnorm = norm_target(target, ctx, f)
+        # a store into an attribute the class did not have on the pinned tree creates NEW shared state: that is a construct which is
+        # present, not one that may merely have moved (core/unconfirmed.py)
+        fresh_state = False
+        if not ok and f.cls is not None:
+            te = _target_expr(node, kind)
+            root_attr = te
+            while isinstance(root_attr, (ast.Subscript, ast.Attribute)) and not (
+                    isinstance(root_attr, ast.Attribute) and isinstance(root_attr.value, ast.Name) and root_attr.value.id in ("self", "cls")):
+                root_attr = root_attr.value
+            if isinstance(root_attr, ast.Attribute) and isinstance(root_attr.value, ast.Name) and root_attr.value.id in ("self", "cls"):
+                known_attrs = set()
+                for k_ in f.cls.mro():
+                    known_attrs |= _known_state().get(k_.key, set())
+                # (a class the pinned tree does not have at all is new code as a whole: undecidable, not positive)
+                fresh_state = f.cls.key in _known_state() and root_attr.attr not in known_attrs
         chk.ob("C20.R1", "%s: %s `%s` -> %s" % (f.key.split(":")[1], kind, target[:60], cat if ok else "unsynchronised"),
                ok, detail + " [%s]" % why,
                key={"function": f.key, "target": tnorm}, file=f.file, function=f.qual, line=node.lineno,
-               text=" ".join(ast.unparse(node).split())[:160])
+               text=" ".join(ast.unparse(node).split())[:160], positive=fresh_state)
     chk.extra["classification"] = cats
     # R2 sharing granularity: the registry hands one Settings object to two calls only when their settings are equal
     from .c03 import registry_key_rule
@@ -95,6 +110,16 @@ def run(ctx, chk):
     from .c13 import previous_locales_flag_rule
     previous_locales_flag_rule(ctx, chk, "C20.R3")
     chk.assume("thread-local and lock idioms are recognised syntactically: `with <name containing lock>`")
+
+
+_KS = []
+
+
+def _known_state():
+    if not _KS:
+        from ..core.unconfirmed import known_state
+        _KS.append(known_state())
+    return _KS[0]
 
 
 def norm_target(t, ctx=None, f=None):
